@@ -68,6 +68,8 @@ enum Op {
     AddPolicy { id: u32, p: usize },
     RemovePolicy { id: u32, p: usize },
     SetValid { id: u32, valid: Valid },
+    /// update_context_rule_name: must not touch anything that decides the rule's requirement or lifetime
+    Rename { id: u32 },
 }
 
 #[derive(Clone, Debug, PartialEq, Eq, Hash)]
@@ -177,6 +179,7 @@ impl Acc {
             Op::AddPolicy { id, p } => ("add_policy", (*id, i.pol[*p].clone(), ()).into_val(e)),
             Op::RemovePolicy { id, p } => ("remove_policy", (*id, i.pol[*p].clone()).into_val(e)),
             Op::SetValid { id, valid } => ("update_context_rule_valid_until", (*id, i.valid(*valid)).into_val(e)),
+            Op::Rename { id } => ("update_context_rule_name", (*id, soroban_sdk::String::from_str(e, "renamed")).into_val(e)),
         }
     }
     fn exec(&self, i: &Inst, op: &Op) -> bool {
@@ -557,6 +560,7 @@ impl World for Acc {
             for valid in [Valid::None, Valid::Now, Valid::Next] {
                 v.push(Op::SetValid { id, valid });
             }
+            v.push(Op::Rename { id });
         }
         v
     }
@@ -570,6 +574,7 @@ impl World for Acc {
             Op::AddPolicy { .. } => "add_policy",
             Op::RemovePolicy { .. } => "remove_policy",
             Op::SetValid { .. } => "update_valid_until",
+            Op::Rename { .. } => "update_name",
         }
         .into()
     }
@@ -615,6 +620,17 @@ impl World for Acc {
                 }
                 Op::RemoveRule { id } => {
                     ensure!(find(&after, *id).is_none(), "edit-effect", "after accepted {:?} the rule is still listed", op);
+                }
+                Op::Rename { id } => {
+                    let (b, a) = (find(&before, *id), find(&after, *id));
+                    ensure!(
+                        a == b,
+                        "edit-effect",
+                        "after accepted {:?}: renaming changed what decides the rule's requirement or lifetime: before {:?}, after {:?}",
+                        op,
+                        b,
+                        a
+                    );
                 }
                 _ => {}
             }
